@@ -565,8 +565,8 @@ def tcp_directed_case(ctx, point: tuple[str, int], skip: int = 0) -> str | None:
 
     def at_pause():
         t = threading.Thread(target=lambda: (send(1, 0, 9000), other_done.set()), daemon=True)
-        other.append(t)
         t.start()
+        other.append(t)
         other_done.wait(0.3)
         start_reading.set()
 
@@ -678,8 +678,8 @@ def tcp_lock_timeout_case(ctx, rng: random.Random) -> str | None:
                     done.set()
 
                 qt = threading.Thread(target=call, daemon=True)
-                query_threads.append(qt)
                 qt.start()
+                query_threads.append(qt)
                 done.wait(0.05)  # a query may legitimately wait for the sender; it must not disturb it
             time.sleep(0.005)
 
